@@ -125,6 +125,14 @@ def cases(draw):
         # the subclass, the style class itself never having been asked)
         "subclass": draw(st.integers(0, 3)) == 0,
     }
+    if case["subclass"] and draw(st.integers(0, 2)) > 0:
+        case["detect"] = True  # detection through the subclass is what a subclass changes
+        if style == "iterm2" and draw(st.booleans()):
+            ident = draw(st.sampled_from([["konsole", "22.04.0"], ["wezterm", "20230712"], ["iterm2", "3.4.19"]]))
+            cfg["name"], cfg["version"] = ident
+        elif style == "kitty" and draw(st.booleans()):
+            ident = draw(st.sampled_from([["kitty", "0.25.0"], ["kitty", "0.26.5"], ["konsole", "22.04.0"]]))
+            cfg["name"], cfg["version"] = ident
     if entry == "str":
         case["alpha"] = 40 / 255
         case["style_args"] = {}
